@@ -435,6 +435,9 @@ KW_ENDIF_BRACE = _re.compile(rb'\b(do|else)\b[ \t]*(?://[^\n]*|/\*[^\n]*?\*/)?[ 
 BODY_STARTS_WITH_DIRECTIVE = _re.compile(rb'(?:\)|\belse)[ \t]*(?://[^\n]*|/\*[^\n]*?\*/)?[ \t]*\r?\n(?:[ \t]*\r?\n)*[ \t]*#[ \t]*(?:if|ifdef|ifndef)\b')
 
 
+BRACE_BEFORE_ENDIF = _re.compile(rb'\{[ \t]*(?://[^\n]*|/\*[^\n]*?\*/)?[ \t]*\r?\n(?:[ \t]*\r?\n)*[ \t]*#[ \t]*endif\b')
+
+
 def construct_tags(src):
     """tags for a failure signature: does the (minimised) program hold a conditional group that ends between `do` / `else` and the brace
     of its block, or a statement body (no braces) that starts with a conditional directive?  Both are shapes uncrustify's statement
@@ -445,6 +448,8 @@ def construct_tags(src):
         tags += ' kw-endif-brace:' + m.group(1).decode()
     if BODY_STARTS_WITH_DIRECTIVE.search(src):
         tags += ' body-starts-with-directive'
+    if BRACE_BEFORE_ENDIF.search(src):
+        tags += ' brace-before-endif'        # (what line-wise minimisation makes of the first shape: a block opened inside a group, closed outside)
     return tags
 
 
